@@ -24,6 +24,18 @@ CLAIMED = {
              'mismatched lengths must end in a throw with operand storage unchanged at the throw point, aliasing forms a op= a and a op= a[0] included; concatenation (5 kinds), boolean-mask selection with '
              'symbolic mask bits (all 2^n paths) and index-list selection with symbolic in-range indices are decided exactly.',
              note='Field formulas over the reals (rounding / signed zeros outside; native replay tolerance 16 ulp of the result scale); lengths above the bound rely on loop uniformity; std::complex scalars only where the headers compile.'),
+ 'C06': dict(design='4/C06', text='Two separately constructed instances of each of 25 processor kinds run in one symbolic execution with all input samples symbolic: one gets the stream in one call, '
+             'the other in up to three frames at every split point of the documented granularity, calls interleaved; outputs (and final adaptive coefficients) must be the same terms (bit-identical for every input) '
+             'or equal over the reals under the path condition; processors with data-dependent branches (median, AGC, compressor, limiter, gate) are explored over every feasible path.',
+             note='Streams of 3..16 granules, parameter grid listed in the evidence; libm calls uninterpreted; instance independence observed through the interleaved second instance.'),
+ 'C07': dict(design='4/C07', text='FirFilter real/complex: taps and input both symbolic, z3 decides the exact polynomial identity with sum_k conj(c[k]) x[i-k] per output; FftFilter: LRA-certified linear map in the '
+             'input (concrete taps: random, single tap at either end, symmetric) and in the taps (concrete input), rows within 1/2*64*N*eps*|c|_1 of the defining sum, output count = whole blocks, data-dependent '
+             'paths checked region-wise; xcorr: syntactic bilinearity + LRA-certified tensor slice per basis vector of b for all (n1,n2) <= 5 (10 thorough), all lags; MAFilter equals the n-tap 1/n FIR exactly.',
+             note='REAL arithmetic (rounding of the data path outside the claim); sizes bounded as stated.'),
+ 'C16': dict(design='4/C16', text='All element values symbolic reals: every feasible comparison path through the compiled std::sort / MedianFilter insertion code (all weak orderings, ties included) is enumerated '
+             'and z3 decides on each path: sort = ordered permutation with sorted[i] is x[idx[i]]; median / MedianFilter / medfilt = counting characterisation of the window median (symbolic initial history); '
+             'Spearman / Kendall = O(n^2) definition for every pair of strict orderings (n <= 4 quick, 5 thorough); Pearson = polynomial identity of numerator and radicand.',
+             note='n <= 5 (6) for sort/median, orders 3-5(6) for the filters; values compared as reals (no NaN); Pearson range [-1,1] not decided.'),
 }
 ALL = [json.loads(l)['id'] for l in open(os.path.join(V, 'properties.jsonl'))]
 NA_REASON = {}
